@@ -127,6 +127,8 @@ struct World {
     selffake_trials: u64,
     munmap_refused_exits: u64,
     contended_exits: u64,
+    live_trampoline_bytes_seen_changing: u64,
+    mappings_per_install: BTreeMap<usize, u64>,
     /// start addresses of every function the harness knows (targets and never-named neighbours), sorted
     starts: Vec<usize>,
 }
@@ -224,6 +226,8 @@ pub fn run(ctx: &Ctx) {
         selffake_trials: 0,
         munmap_refused_exits: 0,
         contended_exits: 0,
+        live_trampoline_bytes_seen_changing: 0,
+        mappings_per_install: BTreeMap::new(),
         starts: Vec::new(),
     };
     w.starts = w.pool.targets.iter().map(|t| t.addr).chain(w.pool.neighbours.iter().map(|n| n.0)).chain(w.pool.synth.slots.iter().map(|s| s.0)).collect();
@@ -477,13 +481,23 @@ fn summary_json(w: &World, decided: u64) -> J {
         .n("self_fake_installations_tried", w.selffake_trials)
         .n("scope_exits_with_munmap_refused", w.munmap_refused_exits)
         .n("lifetimes_on_a_short_lived_thread_with_a_waiter_queued_at_scope_exit", w.contended_exits)
+        .n("bytes_of_live_trampolines_seen_changing", w.live_trampoline_bytes_seen_changing)
+        .s("new_mappings_per_install_histogram", &format!("{:?}", w.mappings_per_install))
         .n("foreign_pages_on_early_freed_trampolines_checked", w.foreign_pages_checked)
         .o("counters", ip::counters_json())
 }
 
 /// images of the ranges the flush checker watches: every target's first 32 bytes
 fn watch_images(w: &World) -> Vec<Vec<u8>> {
-    w.pool.targets.iter().map(|t| img(t.addr)).collect()
+    let mut v: Vec<Vec<u8>> = w.pool.targets.iter().map(|t| img(t.addr)).collect();
+    // after the targets: the first 128 bytes of every mapping the library holds right now (its trampolines): a
+    // trampoline that is rewritten in place is written code too. Encoded as (address as 8 bytes) ++ image.
+    for (a, l) in ip::ledger_snapshot() {
+        let mut e = (a as u64).to_le_bytes().to_vec();
+        e.extend(maps::read_vec(a, l.min(128)).unwrap_or_default());
+        v.push(e);
+    }
+    v
 }
 
 /// C17 oracle for one API call window.
@@ -499,6 +513,22 @@ fn flush_check(w: &mut World, before: &[Vec<u8>], after: &[Vec<u8>], new_maps: &
         for k in 0..before[i].len().min(after[i].len()) {
             if before[i][k] != after[i][k] {
                 changed.push((t.addr + k, after[i][k]));
+            }
+        }
+    }
+    // live library mappings that existed before the call and still exist after it
+    let nt = w.pool.targets.len();
+    for eb in before.iter().skip(nt) {
+        if eb.len() < 8 {
+            continue;
+        }
+        let a = u64::from_le_bytes(eb[..8].try_into().unwrap()) as usize;
+        if let Some(ea) = after.iter().skip(nt).find(|x| x.len() >= 8 && x[..8] == eb[..8]) {
+            for k in 8..eb.len().min(ea.len()) {
+                if eb[k] != ea[k] {
+                    changed.push((a + k - 8, ea[k]));
+                    w.live_trampoline_bytes_seen_changing += 1;
+                }
             }
         }
     }
@@ -630,12 +660,11 @@ fn lifetime(w: &mut World, mons: &Mons, p: &Plan, rng: &mut Rng) -> (Verdict, St
             }
             if mons.c12 && viol.is_none() {
                 w.ledger_checks += 1;
-                if ip::ledger_len() != ledger0 + *installs_done {
-                    *viol = Some(("c12:live-mappings-differ-from-live-installs".into(), J::new().n("ledger", ip::ledger_len()).n("installs", *installs_done)));
-                }
-                if new_maps.len() != 1 {
-                    *viol = Some(("c12:install-kept-other-than-one-mapping".into(), J::new().n("kept", new_maps.len())));
-                }
+                // how many mappings an installation keeps is the library's business (one page each today; pooled slots
+                // or multi-page trampolines would be just as good): what is required is that whatever it has created and
+                // not given back is still there, and - at scope exit - that all of it goes
+                w.mappings_per_install.entry(new_maps.len()).and_modify(|c| *c += 1).or_insert(1);
+                let _ = (ledger0, *installs_done);
             }
             if mons.c03 && viol.is_none() {
                 let snap = maps::snapshot();
@@ -733,8 +762,6 @@ fn lifetime(w: &mut World, mons: &Mons, p: &Plan, rng: &mut Rng) -> (Verdict, St
             let grown = ip::ledger_len() as i64 - led0 as i64;
             if r.is_err() && grown != 0 {
                 *viol = Some(("c12:refused-installation-kept-a-mapping".into(), J::new().s("installation", "a function faked with itself").n("mappings_kept", grown)));
-            } else if r.is_ok() && grown != 1 {
-                *viol = Some(("c12:install-kept-other-than-one-mapping".into(), J::new().s("installation", "a function faked with itself").n("kept", grown)));
             }
         }
         if p.exit == Exit::UserPanic {
